@@ -213,6 +213,25 @@ func c06Checkpoint(r *core.Run, s *sim.Sim, env *menv.Env, world *lnmodel.World,
 			return s.Mint(q, "exact")
 		}
 	}
+	// a quote locked to a key (NUT-20): the mint request carries a signature over quote id and outputs
+	mkMintLocked := func() ([]byte, func(bool) bool) {
+		q := s.NewMintQuote(37+uint64(rng.Intn(200)), true)
+		if q == nil {
+			return nil, nil
+		}
+		s.PayMintQuote(q)
+		env.MintQuoteState(q.Id)
+		outs := client.Outputs(rng, act.Id, client.Split(q.Amount))
+		bms := client.BMs(outs)
+		body, _ := json.Marshal(map[string]any{"quote": q.Id, "outputs": bms, "signature": sim.NUT20Sig(q.Key, q.Id, bms)})
+		return body, func(accepted bool) bool {
+			if accepted {
+				q.Issued++
+				return true
+			}
+			return s.Mint(q, "exact")
+		}
+	}
 	mkMelt := func() ([]byte, func(bool) bool) {
 		q := s.NewMeltQuote(uint64(20+rng.Intn(100)) * 1000)
 		if q == nil {
@@ -284,6 +303,7 @@ func c06Checkpoint(r *core.Run, s *sim.Sim, env *menv.Env, world *lnmodel.World,
 	tmpls := []tmpl{
 		{"swap", "POST", "/v1/swap", mkSwap, false},
 		{"mint", "POST", "/v1/mint/bolt11", mkMint, false},
+		{"mint-locked", "POST", "/v1/mint/bolt11", mkMintLocked, false},
 		{"melt", "POST", "/v1/melt/bolt11", mkMelt, false},
 		{"mint-quote", "POST", "/v1/mint/quote/bolt11", mkMintQuote, false},
 		{"melt-quote", "POST", "/v1/melt/quote/bolt11", mkMeltQuote, false},
@@ -298,6 +318,16 @@ func c06Checkpoint(r *core.Run, s *sim.Sim, env *menv.Env, world *lnmodel.World,
 		}
 		muts := jsonMutants(body, rng, big)
 		muts = append(muts, jmut{"wrong content type", body})
+		if t.endpoint == "mint-locked" {
+			// the other fields are the unlocked mint request's: here every mutant of the signature
+			var ms []jmut
+			for _, m := range muts {
+				if strings.Contains(m.desc, "$.signature") {
+					ms = append(ms, m)
+				}
+			}
+			muts = ms
+		}
 		rng.Shuffle(len(muts), func(i, j int) { muts[i], muts[j] = muts[j], muts[i] })
 		if len(muts) > budget {
 			muts = muts[:budget]
